@@ -159,7 +159,8 @@ impl core::ops::Mul for Fr {
     type Output = Fr;
     #[verifier::external_body]
     fn mul(self, rhs: Fr) -> (r: Fr)
-        ensures r.view() == f_mul(self.view(), rhs.view())
+        // both operand orders are stated (lemma_f_mul_comm proves them equal) so that hints written for `a * b` also serve `b * a`
+        ensures r.view() == f_mul(self.view(), rhs.view()), r.view() == f_mul(rhs.view(), self.view())
     { unimplemented!() }
 }
 // ASSUMED(dep): ark-ff `a / b` is `a * b.inverse().unwrap()`: it PANICS when b is zero, which is why the
